@@ -72,6 +72,12 @@ CodeLines(t) == SplitLines(Stored(t))             \* gopherp.getblock: getea(NAM
 
 Prefixed(ls) == [i \in 1..Len(ls) |-> " " \o ls[i]]
 
+RECURSIVE TotalLen(_)
+TotalLen(lines) == IF Len(lines) = 0 THEN 0 ELSE Len(lines[1]) + 1 + TotalLen(Tail(lines))   \* characters incl. terminators
+LineLens(lines) == [i \in 1..Len(lines) |-> Len(lines[i]) + 1]
+\* Cap20K applies to real files only: VFSZip.open returns a codecs.StreamReader whose readlines() ignores the hint
+Capped(kind, lines) == kind \in {"file", "dir"} /\ TotalLen(lines) >= Hint
+
 --------------------------------------------------------------------------------
 (* The abstract sidecar: [p, lines, nl]; gamma writes TextOf(lines, nl) to the file         *)
 
@@ -99,15 +105,21 @@ SizePart(size) == IF size >= 0 THEN " <" \o ToString(size \div 1024) \o "k>" ELS
 ViewsLine(mime, size) == " " \o mime \o ":" \o SizePart(size)          \* getviewsblock
 LenHeader(size) == IF size >= 0 THEN "+" \o ToString(size) ELSE "+-2"     \* handle: entry.getsize(-2)
 
-SidecarBlocks(sc) ==                               \* one block per present sidecar, configured order
+\* lines of a sidecar block as coded; contents reaching the hint are handled at line level (they are printable and
+\* do not end in a blank line: MC_C15 M_BigShape), everything else goes through the character-level pipeline
+CodeLinesOf(kind, s) ==
+    IF TotalLen(s.lines) < Hint THEN CodeLines(TextOf(s.lines, s.nl))
+    ELSE IF Capped(kind, s.lines) THEN SubSeq(RefLines(s.lines), 1, CapCount(LineLens(s.lines), Hint, 0))
+    ELSE RefLines(s.lines)
+
+SidecarBlocks(kind, sc) ==                         \* one block per present sidecar, configured order
     LET idx == SelectSeq([i \in 1..Len(EaExts) |-> i], LAMBDA i : sc[i].p)
     IN [k \in 1..Len(idx) |->
-          [name |-> "+" \o EaExts[idx[k]].name,
-           lines |-> Prefixed(CodeLines(TextOf(sc[idx[k]].lines, sc[idx[k]].nl)))]]
+          [name |-> "+" \o EaExts[idx[k]].name, lines |-> Prefixed(CodeLinesOf(kind, sc[idx[k]]))]]
 
 \* names of the blocks of one item, as coded: +INFO, +ADMIN, +VIEWS, then the sidecars
 CodeBlockNames(kind, sc) ==
-    <<"+INFO", "+ADMIN", "+VIEWS">> \o [k \in 1..Len(SidecarBlocks(sc)) |-> SidecarBlocks(sc)[k].name]
+    <<"+INFO", "+ADMIN", "+VIEWS">> \o [k \in 1..Len(SidecarBlocks(kind, sc)) |-> SidecarBlocks(kind, sc)[k].name]
 
 --------------------------------------------------------------------------------
 (* Property clauses over an OBSERVED item  it = [info, blocks]  with                         *)
@@ -148,11 +160,11 @@ SidecarExact(it, sc) ==
            ELSE Len(bs) = 0
 
 \* as coded (design level): same, with the lines the pipeline above produces
-SidecarAsCoded(it, sc) ==
+SidecarAsCoded(it, kind, sc) ==
     \A i \in 1..Len(EaExts) :
         LET bs == BlocksNamed(it, "+" \o EaExts[i].name)
         IN IF sc[i].p
-           THEN Len(bs) = 1 /\ bs[1].lines = Prefixed(CodeLines(TextOf(sc[i].lines, sc[i].nl)))
+           THEN Len(bs) = 1 /\ bs[1].lines = Prefixed(CodeLinesOf(kind, sc[i]))
            ELSE Len(bs) = 0
 
 IsNat(s) == TX!IsDigits(s)
